@@ -232,6 +232,9 @@ func cmdCheck(args []string) int {
 	// vacuity result
 	vac := map[string][2]int{} // unit -> reachable, total
 	for _, cov := range covers {
+		if len(cov.Props) > 0 && !hasProp(cov.Props, prop) {
+			continue
+		}
 		x := vac[cov.Func]
 		x[1]++
 		if cov.Status != "unsat" { // sat or unknown: not shown dead
@@ -245,6 +248,7 @@ func cmdCheck(args []string) int {
 			vacuous = append(vacuous, u)
 		}
 	}
+	// antecedent covers of clauses that do not count for this property are ignored
 	sort.Strings(vacuous)
 
 	// baseline and known findings
@@ -325,6 +329,7 @@ func cmdCheck(args []string) int {
 		switch {
 		case replayed:
 			violations++
+			lines = append(lines, "FAILED-OBLIGATION "+n+" ("+ns.Status+", replayed on the real code)")
 			lines = append(lines, fmt.Sprintf("VIOLATION property=%s replay=%s", prop, replayPath))
 		case len(nt) > 0:
 			// the failing path calls a function that has no contract (and had none, or did not exist, when the
@@ -335,6 +340,7 @@ func cmdCheck(args []string) int {
 			// an obligation that was discharged on the committed tree and now fails, or a new obligation for
 			// which a solver exhibits a model of the violation
 			violations++
+			lines = append(lines, "FAILED-OBLIGATION "+n+" ("+ns.Status+")")
 			lines = append(lines, fmt.Sprintf("VIOLATION property=%s replay=%s no-failing-input-found", prop, replayPath))
 		default:
 			undecided = append(undecided, fmt.Sprintf("new obligation %s is %s (%s) and no model replays", n, ns.Status, rnote))
@@ -344,7 +350,15 @@ func cmdCheck(args []string) int {
 	if tmpls, _ := filepath.Glob(filepath.Join(vd, "bounded", prop, "*.go.tmpl")); len(tmpls) > 0 {
 		for _, tmpl := range tmpls {
 			failed, _, out, _ := runReplayTemplateV(*repo, tmpl, map[string]string{}, true)
-			rec := map[string]interface{}{"stand_in": filepath.Base(tmpl), "label": "bounded (exhaustive up to the stated bound; not a proof)", "result": "held"}
+			label := "bounded (exhaustive up to the stated bound; not a proof)"
+			if tb, err := os.ReadFile(tmpl); err == nil {
+				for _, l := range strings.Split(string(tb), "\n") {
+					if strings.HasPrefix(l, "// label:") {
+						label = strings.TrimSpace(strings.TrimPrefix(l, "// label:"))
+					}
+				}
+			}
+			rec := map[string]interface{}{"stand_in": filepath.Base(tmpl), "label": label, "result": "held"}
 			for _, l := range strings.Split(out, "\n") {
 				if i := strings.Index(l, "GOVC-BOUNDED "); i >= 0 {
 					rec["cases"] = strings.TrimSpace(l[i+len("GOVC-BOUNDED "):])
@@ -429,7 +443,7 @@ func cmdCheck(args []string) int {
 		}
 	}
 	for _, v := range vacuous {
-		undecided = append(undecided, "vacuous unit (no reachable exit path): "+v)
+		undecided = append(undecided, "vacuous (no reachable exit path / antecedent never reachable): "+v)
 	}
 	sort.Strings(undecided)
 
@@ -683,6 +697,9 @@ func (e *Engine) coverObligations(results []*UnitResult) []*Obligation {
 			cov.SMTFile = o.SMTFile[:i] + "(assert (not false))\n(check-sat)\n"
 			out = append(out, cov)
 		}
+	}
+	for _, r := range results {
+		out = append(out, r.AnteCov...)
 	}
 	return out
 }
